@@ -117,7 +117,13 @@ func init() {
 		"(time.Duration).Minutes":       nil,
 		"(*strings.Builder).copyCheck":  inNop,
 		"internal/bytealg.IndexByteString": inIndexByteString,
-		"internal/bytealg.CountString":     nil,
+		"internal/bytealg.CountString":     inCountString,
+		"internal/bytealg.MakeNoZero":      inMakeNoZero,
+		"internal/bytealg.IndexString":     inIndexString,
+		"strings.Index":                    inIndexString,
+		"strings.Count":                    inStringsCount,
+		"strings.Contains":                 inStringsContains,
+		"strings.HasPrefix":                nil,
 		"internal/stringslite.IndexByte":   inIndexByteString,
 		"strings.IndexByte":                inIndexByteString,
 		"internal/bytealg.Equal":           nil,
@@ -1389,4 +1395,56 @@ func inSlicesOverlaps(e *Exec, s *State, f *Frame, fn *ssa.Function, args []Valu
 		return e.ret(f, result, False)
 	}
 	return e.ret(f, result, Bool(a.Off < b.Off+b.Len && b.Off < a.Off+a.Len))
+}
+
+func conc2(args []Value) (string, string, bool) {
+	a, ok1 := args[0].(StrV)
+	b, ok2 := args[1].(StrV)
+	if !ok1 || !ok2 || a.Sym != nil || b.Sym != nil {
+		return "", "", false
+	}
+	return a.C, b.C, true
+}
+
+func inCountString(e *Exec, s *State, f *Frame, fn *ssa.Function, args []Value, result ssa.Value) (stepResult, bool) {
+	sv := args[0].(StrV)
+	c := args[1].(*Term)
+	if sv.Sym != nil || !c.IsConst() {
+		panic(unsupported("CountString on symbolic input"))
+	}
+	return e.ret(f, result, BV(64, uint64(strings.Count(sv.C, string([]byte{byte(c.Val)})))))
+}
+
+func inIndexString(e *Exec, s *State, f *Frame, fn *ssa.Function, args []Value, result ssa.Value) (stepResult, bool) {
+	a, b, ok := conc2(args)
+	if !ok {
+		panic(unsupported("strings.Index on symbolic input"))
+	}
+	return e.ret(f, result, BV(64, uint64(int64(strings.Index(a, b)))))
+}
+
+func inStringsCount(e *Exec, s *State, f *Frame, fn *ssa.Function, args []Value, result ssa.Value) (stepResult, bool) {
+	a, b, ok := conc2(args)
+	if !ok {
+		panic(unsupported("strings.Count on symbolic input"))
+	}
+	return e.ret(f, result, BV(64, uint64(strings.Count(a, b))))
+}
+
+func inStringsContains(e *Exec, s *State, f *Frame, fn *ssa.Function, args []Value, result ssa.Value) (stepResult, bool) {
+	a, b, ok := conc2(args)
+	if !ok {
+		panic(unsupported("strings.Contains on symbolic input"))
+	}
+	return e.ret(f, result, Bool(strings.Contains(a, b)))
+}
+
+func inMakeNoZero(e *Exec, s *State, f *Frame, fn *ssa.Function, args []Value, result ssa.Value) (stepResult, bool) {
+	n := e.concreteInt(s, args[0], "MakeNoZero length")
+	arr := make(ArrayV, n)
+	for i := range arr {
+		arr[i] = BV(8, 0)
+	}
+	id := s.alloc(arr)
+	return e.ret(f, result, SliceV{Obj: id, Len: n, Cap: n, Elem: types.Typ[types.Uint8]})
 }
